@@ -5,7 +5,7 @@ import ast
 
 from .program import (Inconclusive, ClassInfo, ExtClass, FuncInfo, ModRef,
                       ExtRef, ValueBinding, BUILTIN_CLASSES)
-from .values import (V, Const, Sym, CRef, FRef, MRef, ERef, BRef, Bound,
+from .values import (walk, Coll, V, Const, Sym, CRef, FRef, MRef, ERef, BRef, Bound,
                      BoundB, Obj, Tup, App, New, Coll, Part, Raise, HObj,
                      Event, Path)
 from .builtins_ import BuiltinsMixin
@@ -282,8 +282,8 @@ class Interp(BuiltinsMixin):
         if isinstance(target, ast.Subscript):
             def k(p, base):
                 def k2(q, idx):
-                    self.set_item(base, idx, val, q, st)
-                    return [(q, None)]
+                    return [(r, None) for r in
+                            self.set_item_f(base, idx, val, q, st)]
                 return self._ev(target.slice, fr, p, k2)
             return self._ev(target.value, fr, path, k)
         self.inconclusive('assignment target', st)
@@ -319,6 +319,70 @@ class Interp(BuiltinsMixin):
             h.havoc = True
             return
         self.event(path, 'setitem', base, None, (idx, val), node)
+
+    def key_candidates(self, h, key, path):
+        """simple parts of a concrete dict/set whose key may equal `key`
+        -> (definitely_index | None, [maybe indices])"""
+        maybe = []
+        for i, p in enumerate(h.parts):
+            k = p.key if h.kind == 'dict' else p.val
+            if k == key:
+                return i, []
+            if isinstance(k, Const) and isinstance(key, Const):
+                continue
+            if isinstance(k, (Const, Sym, App)) and \
+                    isinstance(key, (Const, Sym, App)):
+                t = self.truth(App('cmp', Const('=='), key, k), path)
+                if t is True:
+                    return i, []
+                if t is None:
+                    maybe.append(i)
+        return None, maybe
+
+    def fork_on_key(self, obj, key, path):
+        """-> list of (path, index | None): which entry of the concrete
+        dict/set `obj` the symbolic key denotes"""
+        h = path.heap[obj.oid]
+        if not (h.kind in ('dict', 'set') and h.concrete()):
+            return None
+        sure, maybe = self.key_candidates(h, key, path)
+        if sure is not None:
+            return [(path, sure)]
+        if not maybe:
+            return [(path, None)]
+        if len(maybe) > 3:
+            return None
+        out = []
+        cur = path
+        for i in maybe:
+            hh = cur.heap[obj.oid]
+            k = hh.parts[i].key if hh.kind == 'dict' else hh.parts[i].val
+            c = App('cmp', Const('=='), key, k)
+            if self.truth(c, cur) is False:
+                continue
+            q = cur.fork()
+            self.assume(c, True, q)
+            out.append((q, i))
+            self.assume(c, False, cur)
+        out.append((cur, None))
+        return out
+
+    def set_item_f(self, base, idx, val, path, node):
+        if isinstance(base, Obj) and path.heap[base.oid].kind == 'dict' \
+                and not path.loops[path.heap[base.oid].loops_len:]:
+            fk = self.fork_on_key(base, idx, path)
+            if fk is not None:
+                out = []
+                for (q, i) in fk:
+                    h = q.heap[base.oid]
+                    if i is None:
+                        h.parts.append(Part('elem', val, key=idx))
+                    else:
+                        h.parts[i] = Part('elem', val, key=h.parts[i].key)
+                    out.append(q)
+                return out
+        self.set_item(base, idx, val, path, node)
+        return [path]
 
     def dict_set(self, h, key, val, path):
         gens = path.loops[h.loops_len:]
@@ -524,17 +588,19 @@ class Interp(BuiltinsMixin):
                 if isinstance(v, Raise):
                     results.append((q, v))
                     continue
-                self.assume(v, True, q)
+                self.assume(self.snapshot(v, q), True, q)
                 results.extend(self.exec_block(st.body, fr, q))
         # merge
         out = []
         exits = []
         after = entry
         base_heap_ids = set(entry.heap)
+        entry_parts = {oid: tuple(h.parts) for oid, h in entry.heap.items()
+                       if h.kind in ('list', 'set', 'dict')}
         for (q, sig) in results:
             if sig is None or sig == CNT or sig == BRK:
                 self.merge_iteration(after, q, entry_pc_len, base_heap_ids,
-                                     fr, loop)
+                                     fr, loop, entry_parts)
             else:
                 # return / raise inside the loop: propagate as its own path
                 q.loops = entry.loops
@@ -566,7 +632,9 @@ class Interp(BuiltinsMixin):
         out = self.exec_block(st.orelse, fr, after) + out
         return out
 
-    def merge_iteration(self, after, q, entry_pc_len, base_ids, fr, loop):
+    def merge_iteration(self, after, q, entry_pc_len, base_ids, fr, loop,
+                        entry_parts=None):
+        entry_parts = entry_parts or {}
         """fold the effects of one generic iteration path `q` into `after`"""
         # container contributions
         for oid, h in q.heap.items():
@@ -596,6 +664,35 @@ class Interp(BuiltinsMixin):
                 # stored in outer containers)
                 if oid not in after.heap:
                     after.heap[oid] = h
+        # a container that the body both reads and extends is summarised
+        # unsoundly by a comprehension: mark it (its summary is not evaluable)
+        modified = set()
+        newparts = []
+        for oid, h in q.heap.items():
+            if oid in base_ids and h.kind in ('list', 'set', 'dict'):
+                old = entry_parts.get(oid, ())
+                np_ = [p for p in h.parts if p not in old]
+                if np_:
+                    modified.add(oid)
+                    newparts.extend(np_)
+        if modified:
+            read = set()
+            vals = [c for (c, _) in q.pc[entry_pc_len:]]
+            for p in newparts:
+                vals.append(p.val)
+                vals.extend(c for (c, _) in p.conds)
+                if p.key is not None:
+                    vals.append(p.key)
+            for v in vals:
+                for x in walk(v):
+                    if isinstance(x, Coll) and x.oid in modified:
+                        read.add(x.oid)
+                    if isinstance(x, Obj) and x.oid in modified and \
+                            x is not v:
+                        read.add(x.oid)
+            for oid in read:
+                after.heap[oid].havoc = True
+                after.notes.append(('stateful-loop', oid, loop))
         # events
         n0 = len([e for e in after.log])
         known = set(id(e) for e in after.log)
